@@ -1,6 +1,6 @@
 From Verif Require Import Py PyExt PyValid.
 
-From Coq Require Import ZArith List.
+From Coq Require Import ZArith List String.
 Import ListNotations.
 Open Scope Z_scope.
 
@@ -130,3 +130,40 @@ Definition sv_dcs_outer_test (didx1 : pyv) (n : pyv) (ncols : pyv) : res pyv :=
 
 (* site fact site_dot_out_shape: `out_shape = (a.shape[0], b.shape[1])` present in sparse/numba_backend/_common.py:_dot *)
 Definition site_dot_out_shape : bool := true.
+
+(* call skeleton site_prog_coo_transpose of sparse/numba_backend/_coo/core.py:COO.transpose skelhash=d2d6500d0bce5859 *)
+Definition site_prog_coo_transpose : prog :=
+(PSeq (PVal "normalize_axis"%string) (PSeq (PIf PRaise PSkip) (PSeq (PIf PRaise PSkip) (PSeq (PIf PReturn PSkip) (PSeq (PIf (PLoop (PIf PReturn PSkip)) PSkip) (PSeq (PKer "COO"%string) PReturn)))))).
+
+(* call skeleton site_prog_coo_reshape of sparse/numba_backend/_coo/core.py:COO.reshape skelhash=720193657ca590f7 *)
+Definition site_prog_coo_reshape : prog :=
+(PSeq (PIf PRaise PSkip) (PSeq (PIf PReturn PSkip) (PSeq (PIf (PIf PRaise PSkip) PSkip) (PSeq (PIf PRaise PSkip) (PSeq (PIf (PLoop (PIf PReturn PSkip)) PSkip) (PSeq (PKer "linear_loc"%string) (PSeq (PKer "COO"%string) PReturn))))))).
+
+(* call skeleton site_prog_broadcast_to of sparse/numba_backend/_umath.py:broadcast_to skelhash=8abbd880b0382154 *)
+Definition site_prog_broadcast_to : prog :=
+(PSeq (PIf PReturn PSkip) (PSeq (PVal "_get_broadcast_shape"%string) (PSeq (PKer "_get_expanded_coords_data"%string) (PSeq (PKer "COO"%string) PReturn)))).
+
+(* call skeleton site_prog_tensordot of sparse/numba_backend/_common.py:tensordot skelhash=d8a98e19d09a8f81 *)
+Definition site_prog_tensordot : prog :=
+(PSeq (PVal "check_zero_fill_value"%string) (PSeq (PIf (PSeq (PIf (PSeq (PIf (PKer "todense"%string) PSkip) (PSeq (PIf (PKer "todense"%string) PSkip) PReturn)) PSkip) PRaise) PSkip) (PSeq (PIf PRaise PSkip) (PSeq (PIf (PSeq (PKer "COO"%string) (PSeq (PIf (PKer "todense"%string) PSkip) PReturn)) PSkip) (PSeq (PSeq (PKer "transpose"%string) (PKer "reshape"%string)) (PSeq (PSeq (PKer "transpose"%string) (PKer "reshape"%string)) (PSeq (PKer "_dot"%string) (PSeq (PKer "reshape"%string) PReturn)))))))).
+
+(* call skeleton site_prog_dot of sparse/numba_backend/_common.py:dot skelhash=6469eedc4c3d4a74 *)
+Definition site_prog_dot : prog :=
+(PSeq (PVal "check_zero_fill_value"%string) (PSeq (PIf PRaise PSkip) (PSeq (PIf (PSeq (PIf PRaise PSkip) (PSeq (PIf (PKer "as_coo"%string) PSkip) (PSeq (PIf (PKer "as_coo"%string) PSkip) (PSeq (PKer "sum"%string) PReturn)))) PSkip) (PSeq (PKer "tensordot"%string) PReturn)))).
+
+(* call skeleton site_prog_coo_getitem of sparse/numba_backend/_coo/indexing.py:getitem skelhash=5e671a58784d846d *)
+Definition site_prog_coo_getitem : prog :=
+(PSeq (PIf (PSeq (PIf PRaise PSkip) (PSeq (PKer "COO"%string) PReturn)) PSkip) (PSeq (PVal "normalize_index"%string) (PSeq (PIf PReturn PSkip) (PSeq (PKer "_mask"%string) (PSeq (PIf (PKer "stack"%string) (PIf PSkip (PSeq (PIf PReturn PSkip) PReturn))) (PSeq (PKer "COO"%string) PReturn)))))).
+
+(* call skeleton site_prog_coo_init of sparse/numba_backend/_coo/core.py:COO.__init__ skelhash=002de240b7b83ee5 *)
+Definition site_prog_coo_init : prog :=
+(PSeq (PIf (PSeq (PIf PRaise PSkip) PReturn) PSkip) (PSeq (PIf (PSeq (PKer "as_coo"%string) PReturn) PSkip) (PSeq (PIf PRaise PSkip) (PSeq (PIf PRaise PSkip) (PSeq (PIf (PIf PRaise PSkip) PSkip) (PSeq (PIf (PSeq (PIf PRaise PSkip) (PIf PRaise PSkip)) PSkip) (PSeq (PIf (PKer "_sort_indices"%string) PSkip) (PSeq (PIf (PKer "_sum_duplicates"%string) PSkip) (PIf (PKer "_prune"%string) PSkip))))))))).
+
+Definition site_programs : list (String.string * prog) :=
+  [("site_prog_coo_transpose"%string, site_prog_coo_transpose);
+   ("site_prog_coo_reshape"%string, site_prog_coo_reshape);
+   ("site_prog_broadcast_to"%string, site_prog_broadcast_to);
+   ("site_prog_tensordot"%string, site_prog_tensordot);
+   ("site_prog_dot"%string, site_prog_dot);
+   ("site_prog_coo_getitem"%string, site_prog_coo_getitem);
+   ("site_prog_coo_init"%string, site_prog_coo_init)].
